@@ -382,6 +382,10 @@ func (x *Exec) loopHead(li *loopInfo, st *State, variants map[*ssa.BasicBlock]Te
 	for _, c := range invs {
 		x.assume(st, x.evalClause(c, x.fn, st, x.entry, nil, false))
 	}
+	if x.headStates == nil {
+		x.headStates = map[*ssa.BasicBlock]*State{}
+	}
+	x.headStates[li.head] = st.clone() // for athead(e) in assertions inside the loop body
 	for _, a := range x.rangeIndexCells(li) {
 		// hidden index of `for range` over a slice/array: starts at -1 and is only incremented
 		if t, ok := st.cells[a]; ok {
@@ -554,6 +558,12 @@ func (x *Exec) evalClauseDual(c *Clause, target *ssa.Function, cur, old *State, 
 				ov := Val{T: t}
 				if v, ok := x.paramVals[name]; ok {
 					ov = v
+				}
+				if old != x.entry && old != cur && !a.Heap {
+					// second view is a loop-head state (athead): the local's value there
+					if ot, ok := old.cells[a]; ok {
+						ov = Val{T: ot}
+					}
 				}
 				args = append(args, dual{Val{T: t}, ov})
 				continue
